@@ -26,7 +26,47 @@ def op_classes(F: Facts) -> List[str]:
     r = root(F)
     subs = [q for q in F.subclasses(r) if q != r]
     subs.sort(key=lambda q: (F.cls(q).module.name, F.cls(q).node.lineno))
+    prepare(F, [r] + subs)
     return [r] + subs
+
+
+def prepare(F: Facts, classes: Optional[List[str]] = None) -> None:
+    """A node class that inherits `eval` still has an evaluation of its own when the inherited body is class dependent
+    (template method calling a hook the subclass overrides, a visitor / singledispatch function keyed on the node's class).
+    Every such class gets an entry `<class>.eval` that is the inherited method *analysed as that class*: `self` is an instance
+    of exactly that class, so hooks resolve to its overrides and isinstance(self, T) is decided.  Calls of `.eval` on a child
+    (whose class is not known) are then never resolved statically."""
+    if F.__dict__.get('_op_prepared'):
+        return
+    F.__dict__['_op_prepared'] = True
+    if classes is None:
+        if ROOT not in F.classes:
+            return
+        classes = [ROOT] + [q for q in F.subclasses(ROOT) if q != ROOT]
+    dyn = F.__dict__.setdefault('dynamic_methods', set())
+    # class names that are instantiated somewhere (called, or handed over as a factory): abstract intermediate bases are not
+    made = set()
+    for m in F.modules.values():
+        if '.ply' in m.name:
+            continue
+        for n in ast.walk(m.tree):
+            if isinstance(n, ast.Call):
+                f = n.func
+                made.add(f.id if isinstance(f, ast.Name) else (f.attr if isinstance(f, ast.Attribute) else None))
+                for kw in n.keywords:
+                    if isinstance(kw.value, ast.Name):
+                        made.add(kw.value.id)
+    for cq in classes:
+        if EVAL in F.cls(cq).methods:
+            continue
+        if cq.rsplit('.', 1)[-1] not in made:
+            continue
+        inh = F.find_method(cq, EVAL)
+        if inh is None or inh not in F.functions:
+            continue
+        base = F.functions[inh]
+        F.functions[cq + '.' + EVAL] = FuncInfo(cq + '.' + EVAL, base.module, base.node, cls=cq)
+        dyn.add((inh.rsplit('.', 1)[0], EVAL))
 
 
 def eval_method(F: Facts, cls: str) -> Optional[str]:
@@ -34,7 +74,8 @@ def eval_method(F: Facts, cls: str) -> Optional[str]:
 
 
 def own_eval(F: Facts, cls: str) -> bool:
-    return EVAL in F.cls(cls).methods
+    prepare(F)
+    return EVAL in F.cls(cls).methods or (cls + '.' + EVAL) in F.functions
 
 
 def state_param(F: Facts, qual: str) -> str:
@@ -130,11 +171,22 @@ def _value_kind(F, T, v) -> Optional[str]:
     return None
 
 
-def annotation_kind(F: Facts, module, ann: Optional[ast.AST]) -> str:
+def annotation_kind(F: Facts, module, ann: Optional[ast.AST], _depth: int = 0) -> str:
     if ann is None:
         return 'any'
+    # a module-level type alias (X = ..., X: TypeAlias = ...): judge what it stands for
+    if isinstance(ann, ast.Name) and _depth < 5 and ann.id in module.assigns and len(module.assigns[ann.id]) == 1 \
+            and isinstance(module.assigns[ann.id][0], (ast.Subscript, ast.Name, ast.Attribute)) and F.resolve_name(module, ann.id)[0] == 'modvar':
+        return annotation_kind(F, module, module.assigns[ann.id][0], _depth + 1)
     if isinstance(ann, ast.Subscript):
         head = F.resolve_expr(module, ann.value)
+        if head == ('ext', 'typing.Literal'):
+            elts = ann.slice.elts if isinstance(ann.slice, ast.Tuple) else [ann.slice]
+            if elts and all(isinstance(x, ast.Constant) and isinstance(x.value, str) for x in elts):
+                return 'str'
+            return 'any'
+        if head == ('ext', 'typing.Optional') and _depth < 5:
+            return annotation_kind(F, module, ann.slice, _depth + 1)
         if head in (('ext', 'typing.List'), ('builtin', 'list')):
             inner = ann.slice
             r = F.resolve_expr(module, inner)
@@ -190,7 +242,8 @@ def dispatch_strings(F: Facts, qual: str, field: str = 'op', param: Optional[str
 
 
 def eval_paths(F: Facts, cls: str, op: Optional[str] = None, field: str = 'op') -> List[Path]:
-    q = eval_method(F, cls)
+    prepare(F)
+    q = (cls + '.' + EVAL) if (cls + '.' + EVAL) in F.functions else eval_method(F, cls)
     if q is None:
         raise AnalysisError('%s has no eval method' % cls)
     fi = F.func(q)
@@ -198,7 +251,7 @@ def eval_paths(F: Facts, cls: str, op: Optional[str] = None, field: str = 'op') 
     if op is not None:
         ov[('attr', ('param', self_param(F, q)), field)] = ('const', op)
     # analyse the method as seen from ``cls`` (matters for inherited methods only)
-    fi2 = FuncInfo(fi.qual, fi.module, fi.node, cls=fi.cls)
+    fi2 = FuncInfo(fi.qual, fi.module, fi.node, cls=cls)
     return SymExec(F, fi2, overrides=ov).run()
 
 
